@@ -31,10 +31,40 @@ fn fmt_ds(ds: &[u64]) -> String {
     format!("{:?}", ds)
 }
 
+/// C11 "a responder that returns records at other distances is banned": right after such an answer was handled the
+/// responder's node id and IP address are on the ban list, for ever when bans are configured not to lapse, else until
+/// no earlier than the configured ban duration after the moment the answer was handed to the service (`t_before`,
+/// the clock of the ban list is `std::time::Instant`). `None`: in force; otherwise what is wrong.
+fn ban_in_force(peer: &NodeAddress, t_before: std::time::Instant, ban_dur: Option<std::time::Duration>) -> Option<String> {
+    let l = discv5::verif::filter::permit_ban_snapshot();
+    let entries = [("node id", l.ban_nodes.get(&peer.node_id).cloned()), ("IP address", l.ban_ips.get(&peer.socket_addr.ip()).cloned())];
+    for (what, e) in entries {
+        match (e, ban_dur) {
+            (None, _) => return Some(format!("the responder's {} is not on the ban list", what)),
+            (Some(None), None) => {}
+            (Some(Some(_)), None) => return Some(format!("the ban of the responder's {} lapses although bans are configured to last for ever", what)),
+            (Some(None), Some(_)) => {} // (for ever covers every duration)
+            (Some(Some(until)), Some(d)) => {
+                if until < t_before + d {
+                    let now = std::time::Instant::now();
+                    return Some(format!(
+                        "the ban of the responder's {} {} - the configured ban duration does not run from this answer",
+                        what,
+                        if until <= now { "has already run out" } else { "ends earlier than the configured duration after this answer" }
+                    ));
+                }
+            }
+        }
+    }
+    None
+}
+
 pub fn run_case(idents: &[Ident], idx: u64, rng: &mut Rng, thorough: bool, hist: &mut Hist) -> CaseResult {
     let rt = runtime();
     rt.block_on(async {
         intern_begin();
+        // the choices added later draw from a stream of their own (the older choices of a case stay what they were)
+        let mut rng2 = Rng::new(rng.0 ^ 0x0c11_72e9_ea7e_d0ff);
         let mut recs = Recs::new(idents);
         let n = idents.len() as u64;
         let l = rng.below(n) as usize;
@@ -95,19 +125,27 @@ pub fn run_case(idents: &[Ident], idx: u64, rng: &mut Rng, thorough: bool, hist:
             }
             _ => {}
         }
+        // one case in eight: bans of 25 ms (the ban list reads std::time::Instant - real time; a ban that has run
+        // out stays on the list until the handler's sweep, every 300 s)
+        let short_ban = rng2.chance(1, 8);
+        if short_ban {
+            ca.ban_duration(Some(std::time::Duration::from_millis(25)));
+        }
         let with_table_filter = rng.chance(1, 3);
         if with_table_filter {
             ca.table_filter(seq_filter);
         }
         let permit_ip = rng.chance(1, 4);
-        let mut a = Svc::new(l_enr.clone(), idents[l].key(), ca.build()).await;
+        let a_cfg = ca.build();
+        let ban_dur: Option<std::time::Duration> = a_cfg.ban_duration;
+        let mut a = Svc::new(l_enr.clone(), idents[l].key(), a_cfg).await;
         ban_clear();
         if permit_ip {
             let mut list = discv5::PermitBanList::default();
             list.permit_ips.insert(contactable(IpMode::Ip4, &p_enr).unwrap().ip());
             discv5::verif::filter::permit_ban_reset(list);
         }
-        hist.add(&format!("c11:cfg_ban_{}", ["forever", "10min", "default"][ban_cfg as usize]));
+        hist.add(&format!("c11:cfg_ban_{}", if short_ban { "25ms" } else { ["forever", "10min", "default"][ban_cfg as usize] }));
         if with_table_filter {
             hist.add("c11:cfg_table_filter");
         }
@@ -360,6 +398,7 @@ pub fn run_case(idents: &[Ident], idx: u64, rng: &mut Rng, thorough: bool, hist:
                 Step::Fail => (0, vec![], true),
             };
             let is_fail = matches!(st, Step::Fail);
+            let t_before = std::time::Instant::now();
             if is_fail {
                 a.inject(HandlerOut::RequestFailed(rid.clone(), RequestError::Timeout)).await;
             } else {
@@ -403,6 +442,11 @@ pub fn run_case(idents: &[Ident], idx: u64, rng: &mut Rng, thorough: bool, hist:
                     let any_off = vs.iter().any(|i| off_distance(&recs, *i));
                     if any_off && !banned_now {
                         failures.push(("C11".into(), format!("responder not banned although its first packet carries a record at a distance outside {}", fmt_ds(&ds))));
+                    }
+                    if any_off {
+                        if let Some(m) = ban_in_force(&p_addr, t_before, ban_dur) {
+                            failures.push(("C11".into(), format!("after an answer with a record at a distance that was not requested {}", m)));
+                        }
                     }
                     if !any_off && banned_now {
                         failures.push(("C11".into(), format!("responder banned although every record of its answer is at a requested distance {}", fmt_ds(&ds))));
@@ -453,6 +497,93 @@ pub fn run_case(idents: &[Ident], idx: u64, rng: &mut Rng, thorough: bool, hist:
                 };
                 coq_steps.push(format!("({}, {})", spec, e.coq()));
             }
+        }
+        // ---- the same peer is asked again (monitor only, not part of the model's stream): the lookup is repeated /
+        // the peer announces a newer record once more. Whatever happened before - the peer was never banned, is banned,
+        // or its ban has run out and still sits on the list - an answer with a record at a distance that was not
+        // requested gets it banned for the configured time from THAT answer on, and an answer as the protocol
+        // prescribes never gets it banned.
+        let mut repeat_descr: Vec<J> = vec![];
+        if kind != 1 && a.alive() && failures.is_empty() && rng2.chance(2, 3) {
+            if short_ban && was_banned {
+                // the ban of the first answer runs out (and stays on the list)
+                std::thread::sleep(ban_dur.unwrap_or_default() + std::time::Duration::from_millis(5));
+                hist.add("c11:repeat_after_the_first_ban_ran_out");
+                repeat_descr.push(J::s("real time passes: the ban of the first answer runs out (it stays on the list until the next sweep)"));
+            }
+            let _ = a.drain();
+            let mut second_handle = None;
+            if kind == 0 {
+                second_handle = Some(tokio::spawn(a.s.discv5.find_node(NodeId::new(&target))));
+            } else {
+                a.s.inject(HandlerOut::Request(p_addr.clone(), Box::new(Request { id: RequestId(vec![8]), body: RequestBody::Ping { enr_seq: u64::MAX } })));
+            }
+            settle().await;
+            let mut req2: Option<(RequestId, Vec<u64>)> = None;
+            for m in a.drain() {
+                if let HandlerIn::Request(contact, r) = m {
+                    if contact.node_id() == idents[p].node_id() && r.id != rid {
+                        if let RequestBody::FindNode { distances } = &r.body {
+                            if req2.is_none() {
+                                req2 = Some((r.id.clone(), distances.clone()));
+                            }
+                        }
+                    }
+                }
+            }
+            match req2 {
+                None => hist.add("c11:repeat_no_second_request"),
+                Some((rid2, ds2)) => {
+                    let on2: Vec<usize> = on.iter().cloned().filter(|i| ds2.contains(&log2dist(&pid, &idents[*i].id))).collect();
+                    let off2: Vec<usize> = off.iter().cloned().filter(|i| !ds2.contains(&log2dist(&pid, &idents[*i].id))).collect();
+                    let offend = !off2.is_empty() && rng2.chance(2, 3);
+                    let mut vs: Vec<usize> = vec![];
+                    for _ in 0..rng2.below(3) {
+                        if !on2.is_empty() {
+                            vs.push(recs.get(&plain_spec(*rng2.pick(&on2), 1, 0)));
+                        }
+                    }
+                    if offend {
+                        let at = rng2.below(vs.len() as u64 + 1) as usize;
+                        vs.insert(at, recs.get(&plain_spec(*rng2.pick(&off2), 1, 0)));
+                    }
+                    let listed_before = {
+                        let l = discv5::verif::filter::permit_ban_snapshot();
+                        l.ban_nodes.contains_key(&p_addr.node_id) || l.ban_ips.contains_key(&p_addr.socket_addr.ip())
+                    };
+                    let nodes: Vec<Enr> = vs.iter().map(|i| recs.list[*i].enr.clone()).collect();
+                    repeat_descr.push(J::s(format!(
+                        "the same peer is asked again ({}), distances {:?}; it answers with NODES total=1 records at distances {:?}",
+                        if kind == 0 { "the lookup is repeated" } else { "it announces a newer record in a PING" },
+                        ds2,
+                        vs.iter().map(|i| log2dist(&pid, &recs.id_of(*i))).collect::<Vec<_>>()
+                    )));
+                    let t_before = std::time::Instant::now();
+                    a.inject(HandlerOut::Response(p_addr.clone(), Box::new(Response { id: rid2, body: ResponseBody::Nodes { total: 1, nodes } }))).await;
+                    let _ = a.drain();
+                    let _ = a.events();
+                    if offend {
+                        hist.add(if listed_before { "c11:repeat_offence_of_a_listed_peer" } else { "c11:repeat_offence_of_an_unlisted_peer" });
+                        if let Some(m) = ban_in_force(&p_addr, t_before, ban_dur) {
+                            failures.push((
+                                "C11".into(),
+                                format!(
+                                    "after a further answer of the same peer with a record at a distance that was not requested ({}) {}",
+                                    if listed_before { "the peer was on the ban list from its earlier answer" } else { "the peer was not on the ban list" },
+                                    m
+                                ),
+                            ));
+                        }
+                    } else {
+                        hist.add("c11:repeat_proper_answer");
+                        let l = discv5::verif::filter::permit_ban_snapshot();
+                        if !listed_before && (l.ban_nodes.contains_key(&p_addr.node_id) || l.ban_ips.contains_key(&p_addr.socket_addr.ip())) {
+                            failures.push(("C11".into(), format!("responder banned although every record of its (second) answer is at a requested distance {}", fmt_ds(&ds2))));
+                        }
+                    }
+                }
+            }
+            drop(second_handle);
         }
         // honest answer that fits the collection limits: every record must have been accepted
         if honest && kind != 1 {
@@ -509,6 +640,8 @@ pub fn run_case(idents: &[Ident], idx: u64, rng: &mut Rng, thorough: bool, hist:
             ("distances_requested", J::A(ds.iter().map(|d| J::I(*d as i64)).collect())),
             ("honest_responder", J::B(honest)),
             ("max_nodes_response", J::I(a_max as i64)),
+            ("ban_duration", J::s(format!("{:?}", ban_dur))),
+            ("afterwards", J::A(repeat_descr)),
             (
                 "packets",
                 J::A(steps
